@@ -188,7 +188,13 @@ def sweep(ctx, plants_of, pid, classify_fn, nb=None, demand_type_error=False, gr
                 pos["inside branch"] += 1
             v = tg.real_verdict(l)
             bad = None
-            if v[0] != "ERR":
+            if k.startswith("ok:"):
+                # positive control: this plant must be ACCEPTED
+                if v[0] != "OK":
+                    bad = "rejected (%s) although it is well typed" % (v[1] if len(v) > 1 else v[0])
+                else:
+                    errs["accepted (positive control)"] += 1
+            elif v[0] != "ERR":
                 bad = "accepted" if v[0] == "OK" else v[0]
             elif v[4] < 1 or v[1] == "EMPTY":
                 bad = "Err without an error"
@@ -221,8 +227,28 @@ def c03_plants_of(t, g, r):
     return tg.c03_plants(t)
 
 
+def multi_file_sweep(ctx):
+    r = vlib.rng(ctx.seed, "c03-multi")
+    fam = tg.multi_file_blob_cases(r, 24 if ctx.tier == "quick" else 200)
+    res = vlib.harness("compileb", [tg.case_line(m, extra=ex) for _, m, ex, _ in fam])
+    viol = []
+    dist = collections.Counter()
+    for (desc, m, ex, must_reject), l in zip(fam, res):
+        v = tg.real_verdict(l)
+        dist["%s -> %s" % (desc.split(": ")[1], v[1] if v[0] == "ERR" else v[0])] += 1
+        if must_reject and v[0] != "ERR":
+            viol.append((None, "multi-file:" + desc, "program", "// a.sy\n" + ex["/m/a.sy"] + "// main.sy\n" + m, "accepted"))
+        if not must_reject and v[0] != "OK":
+            viol.append((None, "multi-file:" + desc, "program", "// a.sy\n" + ex["/m/a.sy"] + "// main.sy\n" + m,
+                         "rejected although the two blobs are identical"))
+    return viol, dict(dist)
+
+
 def always(ctx):
     viol, dist = sweep(ctx, c03_plants_of, "C03", classify)
+    mv, mdist = multi_file_sweep(ctx)
+    viol = viol + mv
+    dist["multi_file"] = mdist
     ctx.c03_viol = viol
     out, _ = report_sweep(ctx, "C03", viol, dist)
     return out
@@ -252,7 +278,7 @@ def search(ctx):
     cls, k, info, src, bad = unknown[0]
     payload_marker = None
     small = src
-    if bad == "accepted":
+    if bad == "accepted" and not k.startswith("multi-file"):
         # shrink while the program stays accepted and still contains the planted construct
         planted = [p for p in tg.C03_KINDS.get(k, (None, None)) if p]
         needle = planted[0] if planted and isinstance(planted[0], str) else (planted[0][0] if planted else None)
